@@ -48,6 +48,15 @@ type recursiveMapping struct {
 	allowedUserTypeRestrictions []*openfgav1.RelationReference
 }
 
+// sameTypeParents drops the tupleset tuples whose user (the parent) is not of the given type: only parents of
+// the object's own type are part of the recursion (a parent of another type cannot lead to the user type
+// through the recursive relation, otherwise this resolver is not offered).
+func sameTypeParents(iter storage.TupleKeyIterator, parentType string) storage.TupleKeyIterator {
+	return storage.NewFilteredTupleKeyIterator(iter, func(tk *openfgav1.TupleKey) bool {
+		return tuple.GetType(tk.GetUser()) == parentType
+	})
+}
+
 func (c *LocalChecker) recursiveUserset(_ context.Context, req *ResolveCheckRequest, _ []*openfgav1.RelationReference, rightIter storage.TupleKeyIterator, _ string) CheckHandlerFunc {
 	return func(ctx context.Context) (*ResolveCheckResponse, error) {
 		typesys, _ := typesystem.TypesystemFromContext(ctx)
@@ -85,8 +94,9 @@ func (c *LocalChecker) recursiveTTU(_ context.Context, req *ResolveCheckRequest,
 		ttu := rewrite.GetTupleToUserset()
 
 		objectProvider := newRecursiveTTUObjectProvider(typesys, ttu)
+		objectType := tuple.GetType(req.GetTupleKey().GetObject())
 
-		return c.recursiveFastPath(ctx, req, rightIter, &recursiveMapping{
+		return c.recursiveFastPath(ctx, req, sameTypeParents(rightIter, objectType), &recursiveMapping{
 			kind:             storage.TTUKind,
 			tuplesetRelation: ttu.GetTupleset().GetRelation(),
 		}, objectProvider)
@@ -211,6 +221,9 @@ func buildRecursiveMapper(ctx context.Context, req *ResolveCheckRequest, mapping
 		),
 		checkutil.BuildTupleKeyConditionFilter(ctx, req.GetContext(), typesys),
 	)
+	if mapping.kind == storage.TTUKind {
+		filteredIter = sameTypeParents(filteredIter, tuple.GetType(req.GetTupleKey().GetObject()))
+	}
 	return storage.WrapIterator(mapping.kind, filteredIter), nil
 }
 
